@@ -41,6 +41,60 @@ class Table:
         return interp2(self, io, vi)
 
 
+OPAQUE_DATA = {
+    "eff": [[0.55, 0.65, 0.75], [0.6, 0.7, 0.8], [0.7, 0.8, 0.9]],
+    "vdrop": [[0.2, 0.3, 0.4], [0.25, 0.35, 0.45], [0.3, 0.4, 0.5]],
+    "ig": [[1e-3, 2e-3, 3e-3], [2e-3, 3e-3, 4e-3], [4e-3, 5e-3, 6e-3]],
+}
+
+
+class OpaqueTable(Table):
+    """A tabulated parameter abstracted to 'some function of (|io|, |vi|) with values in the valid range'
+    (assume-guarantee: C10 proves that a real table is such a function; the range is the validity predicate of the
+    constructor).  Symbolic mode: an uninterpreted function, so two lookups agree exactly when their arguments do.
+    Concrete mode (replay): a fixed real 3x3 table whose rows and columns all differ."""
+
+    def __init__(self, name, key):
+        self.key = key
+        self.name = name
+        self.io, self.vi = [0.1, 0.5, 0.9], [2.5, 5.0, 12.0]
+        self.z = [list(r) for r in OPAQUE_DATA[key]]
+        self._real = None
+
+    def apply(self, x, y):
+        """The value the *implementation* obtains for raw lookup arguments (x, y)."""
+        from . import symx
+        import z3
+
+        ex = symx.active()
+        if ex is None:
+            if self._real is None:
+                import sysloss.components as C
+
+                cur, volt = [], []
+                for v in self.vi:
+                    cur += self.io
+                    volt += len(self.io) * [v]
+                self._real = C._Interp2d(cur, volt, [e for r in self.z for e in r])
+            return float(self._real._interp(x, y))
+        f = z3.Function("tbl_%s_%s" % (self.name, self.key), symx.R, symx.R, symx.R)
+        t = f(symx.lift(x), symx.lift(y))
+        rng = z3.And(t > 0, t <= 1) if self.key == "eff" else (t >= 0)
+        ex.note_lemma(t, rng)
+        return symx.SymReal(t)
+
+    def value(self, io, vi):
+        return self.apply(Abs(io), Abs(vi))
+
+
+class OpaqueIpr:
+    def __init__(self, tbl):
+        self.tbl = tbl
+
+    def _interp(self, x, y):
+        return self.tbl.apply(x, y)
+
+
 def interp1(xp, fp, x):
     res = fp[-1]
     for k in reversed(range(len(xp) - 1)):
@@ -197,18 +251,20 @@ def valid(kind, P):
         return Not(IsZero(P["rs"]))
     if kind == "Converter":
         e = P["eff"]
+        if isinstance(e, OpaqueTable):
+            return TRUE
         if isinstance(e, Table):
-            return And(*[And(Gt(Abs(z), 0.0) if False else Gt(z, 0.0), Le(z, 1.0)) for row in e.z for z in row])
+            return And(*[And(Gt(z, 0.0), Le(z, 1.0)) for row in e.z for z in row])
         return And(Gt(e, 0.0), Le(e, 1.0))
     if kind == "LinReg":
         c = Lt(Abs(P.get("vdrop", 0.0)), Abs(P["vo"]))
         g = P.get("ig", 0.0)
-        if isinstance(g, Table):
+        if isinstance(g, Table) and not isinstance(g, OpaqueTable):
             c = And(c, *[Ge(z, 0.0) for row in g.z for z in row])
         return c
     if kind in ("PSwitch", "PMux", "RectM"):
         g = P.get("ig", 0.0)
-        if isinstance(g, Table):
+        if isinstance(g, Table) and not isinstance(g, OpaqueTable):
             return And(*[Ge(z, 0.0) for row in g.z for z in row])
     return TRUE
 
